@@ -1930,8 +1930,11 @@ class Cluster(object):
                 future = session.add_or_renew_pool(host, is_host_addition=False)
                 if future is not None:
                     have_future = True
-                    future.add_done_callback(callback)
                     futures.add(future)
+            # only once every session's future is in the set: a callback that runs while the set is
+            # still being filled finds it empty and marks the host up (and notifies) once per session
+            for future in tuple(futures):
+                future.add_done_callback(callback)
         except Exception:
             log.exception("Unexpected failure handling node %s being marked up:", host)
             for future in futures:
@@ -2068,7 +2071,9 @@ class Cluster(object):
             if future is not None:
                 have_future = True
                 futures.add(future)
-                future.add_done_callback(future_completed)
+        # (see on_up: callbacks only once the set is complete)
+        for future in tuple(futures):
+            future.add_done_callback(future_completed)
 
         if not have_future:
             self._finalize_add(host)
